@@ -269,9 +269,13 @@ func (s *Sched) spawn(g *G, fn func()) {
 		<-g.wake
 		defer func() {
 			if r := recover(); r != nil {
+				// format first: the value's Error/String method may be
+				// instrumented code that reaches a scheduling point, which
+				// must not find the scheduler's lock held by this goroutine
+				val, stack := fmt.Sprint(r), string(debug.Stack())
 				s.mu.Lock()
 				if s.pan == nil {
-					s.pan = &PanicReport{G: g.info(), Value: fmt.Sprint(r), Stack: string(debug.Stack())}
+					s.pan = &PanicReport{G: g.info(), Value: val, Stack: stack}
 				}
 				s.mu.Unlock()
 			}
